@@ -3,6 +3,8 @@
 package c04
 
 import (
+	"io"
+
 	"github.com/cloudflare/circl/internal/zzverif/ref/mldsa"
 	"github.com/cloudflare/circl/sign"
 	"github.com/cloudflare/circl/sign/dilithium/mode2"
@@ -19,6 +21,7 @@ import (
 type impl struct {
 	p        *mldsa.Params
 	newKey   func(seed []byte) (pk, sk any)
+	generate func(r io.Reader) (pk, sk any, err error)
 	packPK   func(pk any) []byte
 	packSK   func(sk any) []byte
 	unpackPK func(b []byte) (any, error)
@@ -41,6 +44,10 @@ var impls = []*impl{
 		newKey: func(seed []byte) (any, any) {
 			pk, sk := mldsa44.NewKeyFromSeed(seed32(seed))
 			return pk, sk
+		},
+		generate: func(r io.Reader) (any, any, error) {
+			pk, sk, err := mldsa44.GenerateKey(r)
+			return pk, sk, err
 		},
 		packPK: func(pk any) []byte { return pk.(*mldsa44.PublicKey).Bytes() },
 		packSK: func(sk any) []byte { return sk.(*mldsa44.PrivateKey).Bytes() },
@@ -68,6 +75,10 @@ var impls = []*impl{
 			pk, sk := mldsa65.NewKeyFromSeed(seed32(seed))
 			return pk, sk
 		},
+		generate: func(r io.Reader) (any, any, error) {
+			pk, sk, err := mldsa65.GenerateKey(r)
+			return pk, sk, err
+		},
 		packPK: func(pk any) []byte { return pk.(*mldsa65.PublicKey).Bytes() },
 		packSK: func(sk any) []byte { return sk.(*mldsa65.PrivateKey).Bytes() },
 		unpackPK: func(b []byte) (any, error) {
@@ -93,6 +104,10 @@ var impls = []*impl{
 		newKey: func(seed []byte) (any, any) {
 			pk, sk := mldsa87.NewKeyFromSeed(seed32(seed))
 			return pk, sk
+		},
+		generate: func(r io.Reader) (any, any, error) {
+			pk, sk, err := mldsa87.GenerateKey(r)
+			return pk, sk, err
 		},
 		packPK: func(pk any) []byte { return pk.(*mldsa87.PublicKey).Bytes() },
 		packSK: func(sk any) []byte { return sk.(*mldsa87.PrivateKey).Bytes() },
@@ -120,6 +135,10 @@ var impls = []*impl{
 			pk, sk := mode2.NewKeyFromSeed(seed32(seed))
 			return pk, sk
 		},
+		generate: func(r io.Reader) (any, any, error) {
+			pk, sk, err := mode2.GenerateKey(r)
+			return pk, sk, err
+		},
 		packPK: func(pk any) []byte { return pk.(*mode2.PublicKey).Bytes() },
 		packSK: func(sk any) []byte { return sk.(*mode2.PrivateKey).Bytes() },
 		unpackPK: func(b []byte) (any, error) {
@@ -146,6 +165,10 @@ var impls = []*impl{
 			pk, sk := mode3.NewKeyFromSeed(seed32(seed))
 			return pk, sk
 		},
+		generate: func(r io.Reader) (any, any, error) {
+			pk, sk, err := mode3.GenerateKey(r)
+			return pk, sk, err
+		},
 		packPK: func(pk any) []byte { return pk.(*mode3.PublicKey).Bytes() },
 		packSK: func(sk any) []byte { return sk.(*mode3.PrivateKey).Bytes() },
 		unpackPK: func(b []byte) (any, error) {
@@ -171,6 +194,10 @@ var impls = []*impl{
 		newKey: func(seed []byte) (any, any) {
 			pk, sk := mode5.NewKeyFromSeed(seed32(seed))
 			return pk, sk
+		},
+		generate: func(r io.Reader) (any, any, error) {
+			pk, sk, err := mode5.GenerateKey(r)
+			return pk, sk, err
 		},
 		packPK: func(pk any) []byte { return pk.(*mode5.PublicKey).Bytes() },
 		packSK: func(sk any) []byte { return sk.(*mode5.PrivateKey).Bytes() },
